@@ -9,7 +9,8 @@ import FoxModel.Spec.Context
       l Router.Lookup     t Txn.Lookup                 L Lookup, write, Clone          W Lookup, CloneWith
       w CloneWith inside a direct handler               c Clone inside a direct handler (after writing)
       I Clone inside an ignored-trailing-slash handler  T the routing tree is replaced (new pool)
-      V the hostname route is registered (new pool; `v` before it is a bad op)
+      V the hostname routes are registered (new pool; `v` / `M` before it is a bad op)
+      M 405 below a hostname whose lazy walk (Allow loop) backtracks after a consumed hostname parameter
     ctx <TAB> conc:…               concurrent mix (runtime only: M=S=ok)
 
   The model side threads ONE recycled context (and a spare for CloneWith) through the whole sequence, dirtied by every
@@ -25,6 +26,7 @@ def sizeOf (k : Nat) : Nat := 1 + k % 5
 
 def routeText : Option Nat → String
   | some 1 => "/u/{id}" | some 2 => "/ig/{id}" | some 3 => "/rd/{id}" | some 4 => "{sub}.example.com/hv/{id}"
+  | some 5 => "{sub}.{dom}.com/hv/{id}"
   | some n => "?" ++ toString n
   | none => "-"
 
@@ -53,6 +55,7 @@ def shapeOf (op : Char) (k : Nat) : Option (Branch × LookupOut × List LookupOu
   | 'n' => some (.noRoute, {}, [{}, {}])
   | 'm' => some (.noMethod, {}, [{ found := some 1, skip := [2] }, {}])
   | 'o' => some (.options, {}, [{ found := some 1 }, {}])
+  | 'M' => some (.noMethod, {}, [{ found := some 5, viaHost := true }, {}])
   | 'v' => some (.direct, { found := some 4, viaHost := true, params := [(subKey, ascii "h" ++ t), (idKey, t)] }, [])
   | _ => none
 
@@ -91,7 +94,7 @@ def step (st : St) (op : Char) (k : Nat) : St :=
   let env0 := envOf st.written
   if op == 'T' then ({ st with pool := [] }).emit "-" "-"
   else if op == 'V' then ({ st with pool := if st.hostReg then st.pool else [], hostReg := true }).emit "-" "-"
-  else if op == 'v' && !st.hostReg then st.emit "bad-op" "bad-op"
+  else if (op == 'v' || op == 'M') && !st.hostReg then st.emit "bad-op" "bad-op"
   else if op == 'l' || op == 't' || op == 'L' || op == 'W' then
     -- manual lookup of the direct shape with a caller supplied writer (id k)
     let o : LookupOut := { found := some 1, params := [(idKey, tok k)] }
